@@ -27,6 +27,7 @@ Round 5:
   use id=<k>                => ok    Server.Use(middleware u<k>) (trail tokens u<k>, outside the route's own middlewares)
   start                     => listen | panic:<verdict>   Server.Start() on a port that cannot be opened
   cfg must=1                         the server is built by rest.MustNewServer
+  herr k=<kind> => returned | panic:same-error | panic:other     handleError(err) for every class of error value
   other m=<method> p=<path> => clean=… <outcome>   a second rest.Server (route GET /other/:o -> h=9999) serves the request
 Sections  `begin kind=tree` (core/search.Tree directly, raw strings):
   tadd p=<route> h=<id|nil>   => ok|dup|dupslash|notfromroot|empty
@@ -629,6 +630,27 @@ def runSection (r : Report) (s : Section) : Report := Id.run do
         r := runReq r st s.idx l m p (arg "auth=" args) (kvStr s.cfg "kind" = "server") (arg "ctx=" args) (arg "beh=" args)
         st := { st with served := true }
       | _, _ => r := r.mismatch s.idx l.idx "bad-op" (joinSp l.op)
+    | ["herr", a] =>
+      -- handleError(err): every class of error value; a registration error (plain or wrapped) must panic with itself
+      match arg "k=" [a] with
+      | some k =>
+        let cls : Option (Bool × Bool) :=   -- (err == nil, errors.Is(err, http.ErrServerClosed))
+          if k = "nil" then some (true, false)
+          else if k = "closed" ∨ k = "wrapped-closed" then some (false, true)
+          else if ["badmethod", "wrapped-badpath", "dup", "typed-nil", "zero"].contains k then some (false, false)
+          else none
+        match cls with
+        | some (isNil, closed) =>
+          let want := if handleErrorPanics isNil closed then "panic:same-error" else "returned"
+          r := r.addCover s!"handleError-{k}"
+          -- (a typed-nil error is not nil: the start-up stops with a panic — the logging call dereferences it first)
+          let okObs := joinSp l.obs = want ∨ (k = "typed-nil" ∧ (joinSp l.obs).startsWith "panic:")
+          if !okObs then
+            r := r.mismatch s.idx l.idx want (joinSp l.obs)
+            if ["badmethod", "wrapped-badpath", "dup"].contains k then
+              r := r.violation s.idx l.idx s!"handleError({k}): a registration error must stop the start-up with that error [{want}], implementation did [{joinSp l.obs}]"
+        | none => r := r.mismatch s.idx l.idx "bad-op" (joinSp l.op)
+      | none => r := r.mismatch s.idx l.idx "bad-op" (joinSp l.op)
     | "other" :: args =>
       -- a second rest.Server alive at the same time: NewServer(), AddRoute(GET /other/:o -> 9999), bindRoutes
       match arg "m=" args, arg "p=" args with
